@@ -355,6 +355,11 @@ def configs():
         ("hist3d", "lookalike", lambda k: histogram([[0, 1], [0, 1], [0, 1]], [[[k]]])),
         ("csv_text", "lookalike", lambda k: ("0,%d" % k, {"output": {"filetype": "csv"}})),
         ("foreign_to_csv_true", "lookalike", lambda k: (Foreign(k), {"output": {"to_csv": True}})),
+        # output options in the context of an unselected value belong to that value only
+        ("hist_to_csv_false_nodup", "disabled", lambda k: (hist_num(k), {"output": {"to_csv": False, "duplicate_last_bin": False}})),
+        ("hist_to_csv_false_dup", "disabled", lambda k: (hist_num(k), {"output": {"to_csv": False, "duplicate_last_bin": True}})),
+        ("foreign_nodup", "lookalike", lambda k: (Foreign(k), {"output": {"duplicate_last_bin": False}})),
+        ("foreign_dup", "lookalike", lambda k: (Foreign(k), {"output": {"duplicate_last_bin": True}})),
     ]
     cs.append(Config("ToCSV()", "ToCSV", lambda: ToCSV(), tocsv_sel, tocsv_unsel))
     cs.append(Config("ToCSV(sep,header,row_end,nodup)", "ToCSV",
@@ -385,6 +390,11 @@ def configs():
                                                                                       "filepath": "out/pre.txt", "changed": False}})),
         ("already_written_absent", "already-written", lambda k: ("out/sub/n%d.csv" % k, {"output": {
             "filename": "n%d" % k, "fileext": "csv", "filetype": "csv", "dirname": "sub", "filepath": "out/sub/n%d.csv" % k}})),
+        # its directory does not exist (any more): skipping it must not create one
+        ("already_written_new_dir", "already-written", lambda k: ("out/nd%d/x.txt" % k, {"output": {
+            "filename": "x", "fileext": "txt", "dirname": "nd%d" % k, "filepath": "out/nd%d/x.txt" % k}})),
+        ("write_false_new_dir", "disabled", lambda k: ("text %d" % k, {"output": {
+            "write": False, "filename": "y", "dirname": os.path.join("nw%d" % k, "deep")}})),
     ]
     cs.append(Config("Write('out')", "Write", lambda: Write("out", verbose=False), write_sel, write_unsel, write_prep))
     cs.append(Config("Write('out',overwrite)", "Write", lambda: Write("out", verbose=True, overwrite=True),
@@ -617,6 +627,8 @@ def written_elsewhere_config():
             "filename": "f%d" % k, "fileext": "txt", "filepath": "other/f%d.txt" % k, "changed": False}})),
         ("written_elsewhere_dirname", "written-elsewhere", lambda k: ("other/sub/g.csv", {"output": {
             "filename": "g", "fileext": "csv", "filetype": "csv", "dirname": "sub", "filepath": "other/sub/g.csv"}})),
+        ("written_elsewhere_new_dir", "written-elsewhere", lambda k: ("other/ne%d/x.txt" % k, {"output": {
+            "filename": "x", "fileext": "txt", "dirname": "ne%d" % k, "filepath": "other/ne%d/x.txt" % k}})),
     ]
     cfg = Config("Write('out') after Write('other')", "Write", lambda: Write("out", verbose=False), base.sel, unsel, base.prep)
     cfg.note = ("; the unselected values are (path, context) pairs with data == context.output.filepath written by another Write "
